@@ -967,6 +967,16 @@ func rulesC03(r *Run) {
 	ruleFinalBlocks(r, "R4")
 	ruleExamineBypasses(r, "R4")
 	r.Expect("R4", 5)
+
+	// ---- R5: "… or one of its checks failed": a failing block-level check reaches the block's verdict
+	// (the same constructs C07 decides for the continuous checks, and the gate/ post-check routing)
+	r.Kind("R5", "K3+K2")
+	ruleRunContChecks(r, "R5")
+	ruleFailBranchStatus(r, "R5", smKey("ExecuteSequences"), pkgSM+".Data.contChecksPassing", "workflow.Block")
+	ruleDrainFailure(r, "R5", "BlockEnd", "sm.block", true)
+	ruleGroupState(r, "R5", "BlockPostChecks", "workflow.Block", "PostChecks", "workflow.Block")
+	r.Expect("R5", 5)
+
 }
 
 func boolStr(b bool) string {
